@@ -3,10 +3,12 @@ package main
 import (
 	"verif/harness/mon/c03"
 	"verif/harness/mon/c06"
+	"verif/harness/mon/c07"
 	"verif/harness/mon/c09"
 	"verif/harness/mon/c10"
 	"verif/harness/mon/c11"
 	"verif/harness/mon/c12"
+	"verif/harness/mon/c13"
 	"verif/harness/mon/c14"
 	"verif/harness/mon/c16"
 	"verif/harness/mon/c17"
@@ -16,10 +18,12 @@ import (
 func init() {
 	register("C03", c03.Run)
 	register("C06", c06.Run)
+	register("C07", c07.Run)
 	register("C09", c09.Run)
 	register("C10", c10.Run)
 	register("C11", c11.Run)
 	register("C12", c12.Run)
+	register("C13", c13.Run)
 	register("C14", c14.Run)
 	register("C16", c16.Run)
 	register("C17", c17.Run)
